@@ -262,3 +262,43 @@ func VerifC02Rollback() {
 		rt.Reach("accepted")
 	}
 }
+
+// VerifC02Pending: a change that arrived earlier and could not attach (its parent was missing) gives later
+// deliveries under the same id no credit: bytes that do not belong to the id are refused, nothing of them
+// is attached or stored, whether or not the genuine change was seen before.
+func VerifC02Pending() {
+	b := newVBuilder()
+	b.strict = true
+	ids := rt.Atoms(4, 2)
+	b.nextIds = ids[3:]
+	ctx := context.Background()
+	r, err := vNewReplica(ids[0], b, "w")
+	rt.Assert(err == nil, "open")
+	c1 := b.register(&Change{Id: ids[1], PreviousIds: []string{ids[0]}, SnapshotId: ids[0], AclHeadId: "acl0", Identity: &vTreePub{id: "w"}, Data: []byte("a")}, 1)
+	c2 := b.register(&Change{Id: ids[2], PreviousIds: []string{ids[1]}, SnapshotId: ids[0], AclHeadId: "acl0", Identity: &vTreePub{id: "w"}, Data: []byte("b")}, 1)
+	if rt.Bool() {
+		// the genuine c2 arrives alone first: verified, but its parent is unknown
+		_, _ = r.ot.AddRawChanges(ctx, RawChangesPayload{NewHeads: []string{c2.Id}, RawChanges: []*treechangeproto.RawTreeChangeWithId{c2}})
+		rt.Assert(!r.ot.HasChanges(c2.Id), "change-without-parent-does-not-attach")
+		rt.Reach("pending")
+	}
+	second := c2
+	tampered := rt.Bool()
+	if tampered {
+		second = &treechangeproto.RawTreeChangeWithId{Id: c2.Id, RawChange: []byte{1}}
+	}
+	preStored := len(r.store.changes)
+	_, err = r.ot.AddRawChanges(ctx, RawChangesPayload{NewHeads: []string{c2.Id}, RawChanges: []*treechangeproto.RawTreeChangeWithId{c1, second}})
+	if tampered {
+		rt.Assert(err != nil, "bytes-that-do-not-belong-to-the-id-are-refused")
+		rt.Assert(!r.ot.HasChanges(c2.Id), "tampered-change-not-attached")
+		if sc, ok := r.store.changes[c2.Id]; ok {
+			rt.Assert(len(sc.RawChange) == 1 && sc.RawChange[0] == 0, "tampered-bytes-not-stored")
+		}
+		rt.Assert(len(r.store.changes) == preStored || err == nil, "refused-batch-leaves-storage")
+		rt.Reach("tampered")
+	} else {
+		rt.Assert(err == nil && r.ot.HasChanges(c2.Id), "genuine-change-accepted")
+		rt.Reach("genuine")
+	}
+}
